@@ -6,4 +6,5 @@ From Coq Require Import ExtrOcamlBasic.
 From GoSse Require Import Base Run.
 Extraction Language OCaml.
 Extraction "model.ml" val run_fields holds_fields
+  run_finite holds_finite holds_finite_slots run_valid holds_valid holds_valid_slots
   N.add N.mul N.div_eucl N.eqb Z.add Z.mul Z.opp Z.div_eucl Z.eqb Z.of_N Z.to_N.
